@@ -94,14 +94,87 @@ Example npo2_shape_independent : forall x : N,
      (x + 1) mod 18446744073709551616)%N = model_npo2 x.
 Proof. intro x. unfold model_npo2. npo2_semantic x. Qed.
 
+(* ---------- shape-independent treatment of the comparison chains ----------
+   gen_hex_to_byte and gen_isabs only COMPARE their inputs (one character; the length and the first
+   three characters) with constants.  The fallback proofs split the inputs into the regions delimited
+   by the model's own constants (a fixed, small number of cases chosen here, not a case split driven
+   by the generated term), decide every comparison atom of either side inside a region with lia, and
+   finish by computation.  Any generated shape whose atoms compare the same quantities with the same
+   constants is accepted: reordered tests, early returns, locals holding truth values (b2z / z2b). *)
+Ltac decide_cmpZ :=
+  repeat match goal with
+  | |- context [(?a <=? ?b)%Z] => first
+      [ replace (a <=? b)%Z with true by (symmetry; apply Z.leb_le; lia)
+      | replace (a <=? b)%Z with false by (symmetry; apply Z.leb_gt; lia) ]
+  | |- context [(?a <? ?b)%Z] => first
+      [ replace (a <? b)%Z with true by (symmetry; apply Z.ltb_lt; lia)
+      | replace (a <? b)%Z with false by (symmetry; apply Z.ltb_ge; lia) ]
+  | |- context [(?a =? ?b)%Z] => first
+      [ replace (a =? b)%Z with true by (symmetry; apply Z.eqb_eq; lia)
+      | replace (a =? b)%Z with false by (symmetry; apply Z.eqb_neq; lia) ]
+  | |- context [(?a >=? ?b)%Z] => rewrite (Z.geb_leb a b)
+  | |- context [(?a >? ?b)%Z] => rewrite (Z.gtb_ltb a b)
+  end.
+
+Ltac hex_regions c :=
+  let R := fresh "R" in
+  assert (R : (c < 48 \/ 48 <= c <= 57 \/ 57 < c < 65 \/ 65 <= c <= 70 \/ 70 < c < 97 \/
+               97 <= c <= 102 \/ 102 < c)%Z) by lia;
+  destruct R as [R|[R|[R|[R|[R|[R|R]]]]]].
+
+Ltac isabs_regions len c0 c1 c2 :=
+  let RL := fresh "RL" in let R0 := fresh "R0" in let R1 := fresh "R1" in let R2 := fresh "R2" in
+  assert (RL : (len <= 1 \/ len = 2 \/ 3 <= len)%Z) by lia;
+  assert (R0 : (c0 < 47 \/ c0 = 47 \/ 47 < c0 < 65 \/ 65 <= c0 <= 90 \/ 90 < c0 < 97 \/
+                97 <= c0 <= 122 \/ 122 < c0)%Z) by lia;
+  assert (R1 : (c1 = 58 \/ c1 <> 58)%Z) by lia;
+  assert (R2 : (c2 = 47 \/ c2 = 92 \/ (c2 <> 47 /\ c2 <> 92))%Z) by lia;
+  destruct RL as [RL|[RL|RL]]; destruct R0 as [R0|[R0|[R0|[R0|[R0|[R0|R0]]]]]];
+  destruct R1 as [R1|R1]; destruct R2 as [R2|[R2|R2]].
+
 Lemma gen_hex_to_byte_eq_l : forall c : Z, gen_hex_to_byte c = hex_to_byte c.
-Proof. intro c. reflexivity. Qed.
+Proof.
+  intro c. first
+  [ reflexivity
+  | unfold gen_hex_to_byte, hex_to_byte; cbv zeta; hex_regions c; decide_cmpZ; cbv beta iota delta [andb orb negb];
+    first [reflexivity | f_equal; lia] ].
+Qed.
 
 Lemma gen_isabs_eq_l : forall p : list Z, gen_isabs p = if isabs p then 1%Z else 0%Z.
 Proof.
-  intro p. unfold gen_isabs, isabs, is_alpha, is_sep, zlen. cbv zeta.
-  match goal with |- context [if ?c then _ else _] => destruct c end; [reflexivity|].
-  match goal with |- context [if ?c then _ else _] => destruct c end; reflexivity.
+  intro p. first
+  [ unfold gen_isabs, isabs, is_alpha, is_sep, zlen; cbv zeta;
+    match goal with |- context [if ?c then _ else _] => destruct c end; [reflexivity|];
+    match goal with |- context [if ?c then _ else _] => destruct c end; reflexivity
+  | unfold gen_isabs, isabs, is_alpha, is_sep, zlen; cbv zeta;
+    generalize (Z.of_nat (length p)) (nth 0 p 0%Z) (nth 1 p 0%Z) (nth 2 p 0%Z); intros len c0 c1 c2;
+    isabs_regions len c0 c1 c2; decide_cmpZ; reflexivity ].
+Qed.
+
+(* the fallback routes exercised on every build: early return on the length, a local holding a
+   truth value, the letter and separator tests written the other way round; a hex digit test with
+   the branches reordered *)
+Example isabs_shape_independent : forall p : list Z,
+  (let len := Z.of_nat (length p) in
+   if (1 <? len) && (nth 0 p 0 =? 47) then 1
+   else if len <=? 2 then 0
+   else let drive := nth 0 p 0 in
+        let is_letter := if ((65 <=? drive) && (drive <=? 90)) || ((97 <=? drive) && (drive <=? 122)) then 1 else 0 in
+        if (negb (is_letter =? 0)) && (nth 1 p 0 =? 58) && ((nth 2 p 0 =? 92) || (nth 2 p 0 =? 47)) then 1 else 0)%Z
+  = if isabs p then 1%Z else 0%Z.
+Proof.
+  intro p. unfold isabs, is_alpha, is_sep, zlen; cbv zeta.
+  generalize (Z.of_nat (length p)) (nth 0 p 0%Z) (nth 1 p 0%Z) (nth 2 p 0%Z); intros len c0 c1 c2.
+  isabs_regions len c0 c1 c2; decide_cmpZ; reflexivity.
+Qed.
+
+Example hex_shape_independent : forall c : Z,
+  (if (97 <=? c) && (c <=? 102) then (c - 87) mod 256
+   else if (c <? 48) || (102 <? c) then 255
+   else if c <=? 57 then (c - 48) mod 256
+   else if (65 <=? c) && (c <=? 70) then (c - 55) mod 256 else 255)%Z = hex_to_byte c.
+Proof.
+  intro c. unfold hex_to_byte. hex_regions c; decide_cmpZ; cbv beta iota delta [andb orb negb]; first [reflexivity | f_equal; lia].
 Qed.
 
 (* the character test of the backwards separator scan in basename and in dirname *)
